@@ -178,6 +178,88 @@ func c15EncodeAst(ast *syntax.Ast) (string, error) {
 		}
 	}
 	e.call(ast.Call)
+	// what equivalence.go does not read: per callable src / resources / retain / chunk parameters / help, struct definitions
+	e.tok("X", strconv.Itoa(len(ast.Callables.List)))
+	keys := func(xs []string) {
+		e.tok(strconv.Itoa(len(xs)))
+		for _, x := range xs {
+			e.tok(c15Key(x))
+		}
+	}
+	for _, c := range ast.Callables.List {
+		e.tok(c15Key(c.GetId()))
+		var helps [][2]string
+		switch c := c.(type) {
+		case *syntax.Stage:
+			src := ""
+			if c.Src != nil {
+				src = string(c.Src.Lang) + " " + c.Src.Path + " " + strings.Join(c.Src.Args, " ")
+			}
+			res := ""
+			if r := c.Resources; r != nil {
+				res = fmt.Sprintf("threads=%v mem=%v vmem=%v special=%q strict=%v", r.Threads, r.MemGB, r.VMemGB, r.Special, r.StrictVolatile)
+			}
+			e.tok(c15Key(src), c15Key(res))
+			var ret []string
+			if c.Retain != nil {
+				for _, rp := range c.Retain.Params {
+					ret = append(ret, rp.Id)
+				}
+			}
+			keys(ret)
+			if c.ChunkIns != nil {
+				e.tok(strconv.Itoa(len(c.ChunkIns.List)))
+				for _, p := range c.ChunkIns.List {
+					e.param(p)
+				}
+			} else {
+				e.tok("0")
+			}
+			if c.ChunkOuts != nil {
+				e.tok(strconv.Itoa(len(c.ChunkOuts.List)))
+				for _, p := range c.ChunkOuts.List {
+					e.param(p)
+				}
+			} else {
+				e.tok("0")
+			}
+			for _, p := range c.InParams.List {
+				helps = append(helps, [2]string{"i:" + p.GetId(), p.GetHelp()})
+			}
+			for _, p := range c.OutParams.List {
+				helps = append(helps, [2]string{"o:" + p.GetId(), p.GetHelp()})
+			}
+		case *syntax.Pipeline:
+			e.tok("-", "-")
+			var ret []string
+			if c.Retain != nil {
+				for _, ref := range c.Retain.Refs {
+					ret = append(ret, ref.Id+"."+ref.OutputId)
+				}
+			}
+			keys(ret)
+			e.tok("0", "0")
+			for _, p := range c.InParams.List {
+				helps = append(helps, [2]string{"i:" + p.GetId(), p.GetHelp()})
+			}
+			for _, p := range c.OutParams.List {
+				helps = append(helps, [2]string{"o:" + p.GetId(), p.GetHelp()})
+			}
+		}
+		e.tok(strconv.Itoa(len(helps)))
+		for _, h := range helps {
+			e.tok(c15Key(h[0]), c15Key(h[1]))
+		}
+	}
+	e.tok("T", strconv.Itoa(len(ast.StructTypes)))
+	for _, st := range ast.StructTypes {
+		e.tok(c15Key(st.Id), strconv.Itoa(len(st.Members)))
+		for _, m := range st.Members {
+			t := m.Tname
+			e.tok(c15Key(m.Id), c15Key(t.Tname), strconv.Itoa(int(t.ArrayDim)), strconv.Itoa(int(t.MapDim)),
+				strconv.Itoa(int(m.IsFile())), c15Key(m.OutName))
+		}
+	}
 	return e.sb.String(), e.err
 }
 
@@ -241,6 +323,9 @@ func c15Compile(dir string, p *gProg) (*c15Compiled, error) {
 type c15Edit struct {
 	name     string
 	semantic bool // ground truth: does it change what would run?
+	// which `Ignored` aspects of the model's full meaning must differ: "-" = none (purely textual
+	// edit), a kind name = exactly that aspect (an edit the code ignores by design), "" = not checked
+	kinds string
 	// apply edits q in place; returns a description, whether the edit touched
 	// the top-level invocation text, and whether it was applicable
 	apply func(rng *rand.Rand, q *gProg) (string, bool, bool)
@@ -329,10 +414,10 @@ func c15IsLiteral(e string) bool {
 func c15Edits() []c15Edit {
 	var E []c15Edit
 	cos := func(name string, f func(rng *rand.Rand, q *gProg) (string, bool, bool)) {
-		E = append(E, c15Edit{name, false, f})
+		E = append(E, c15Edit{name, false, "", f})
 	}
 	sem := func(name string, f func(rng *rand.Rand, q *gProg) (string, bool, bool)) {
-		E = append(E, c15Edit{name, true, f})
+		E = append(E, c15Edit{name, true, "", f})
 	}
 	// ---------------- cosmetic ----------------
 	cos("identity", func(rng *rand.Rand, q *gProg) (string, bool, bool) { return "no change", false, true })
@@ -397,16 +482,20 @@ func c15Edits() []c15Edit {
 	cos("filetype-rename", func(rng *rand.Rand, q *gProg) (string, bool, bool) {
 		// only file types used in scalar positions everywhere
 		var cands []string
+		reach := c15Reachable(q)
 		for _, f := range q.Filetypes {
-			ok := true
+			ok, used := true, false
 			for _, d := range q.Decls {
 				for _, p := range append(append([]gParam{}, d.ins()...), d.outs()...) {
 					if strings.Contains(p.Type, f) && p.Type != f {
 						ok = false
 					}
+					if p.Type == f && reach[d.name()] {
+						used = true
+					}
 				}
 			}
-			if ok {
+			if ok && used {
 				cands = append(cands, f)
 			}
 		}
@@ -454,28 +543,97 @@ func c15Edits() []c15Edit {
 		c.Volatile = !c.Volatile
 		return "toggle volatile on call " + c.id(), false, true
 	})
-	cos("stage-src-resources", func(rng *rand.Rand, q *gProg) (string, bool, bool) {
+	cos("stage-src", func(rng *rand.Rand, q *gProg) (string, bool, bool) {
 		ss := c15Stages(q, true)
 		if len(ss) == 0 {
 			return "", false, false
 		}
-		s := ss[rng.Intn(len(ss))]
-		switch rng.Intn(3) {
-		case 0:
-			s.Src += "_v2"
-			return "stage src of " + s.Name, false, true
-		case 1:
-			s.MemGB += 3
-			return "stage mem_gb of " + s.Name, false, true
-		default:
-			for _, o := range s.Outs {
+		st := ss[rng.Intn(len(ss))]
+		st.Src += "_v2"
+		return "stage src of " + st.Name, false, true
+	})
+	cos("stage-resources", func(rng *rand.Rand, q *gProg) (string, bool, bool) {
+		ss := c15Stages(q, true)
+		if len(ss) == 0 {
+			return "", false, false
+		}
+		st := ss[rng.Intn(len(ss))]
+		st.MemGB += 3
+		return "stage mem_gb of " + st.Name, false, true
+	})
+	cos("stage-retain", func(rng *rand.Rand, q *gProg) (string, bool, bool) {
+		for _, st := range c15Stages(q, true) {
+			for _, o := range st.Outs {
 				if gIsFiletype(q, o.Type) {
-					if len(s.Retain) == 0 {
-						s.Retain = []string{o.Name}
+					if len(st.Retain) == 0 {
+						st.Retain = []string{o.Name}
 					} else {
-						s.Retain = nil
+						st.Retain = nil
 					}
-					return "stage retain of " + s.Name, false, true
+					return "stage retain of " + st.Name, false, true
+				}
+			}
+		}
+		return "", false, false
+	})
+	cos("chunk-params", func(rng *rand.Rand, q *gProg) (string, bool, bool) {
+		for _, st := range c15Stages(q, true) {
+			if st.Split {
+				if rng.Intn(2) == 0 {
+					if len(st.ChunkIns) == 0 {
+						st.ChunkIns = []gParam{{Type: "int", Name: "chunk_ix"}}
+					} else {
+						st.ChunkIns = append(st.ChunkIns, gParam{Type: "string", Name: "chunk_tag"})
+					}
+				} else {
+					st.ChunkOuts = append(st.ChunkOuts, gParam{Type: "int", Name: "chunk_result"})
+				}
+				return "split in/out parameters of stage " + st.Name, false, true
+			}
+		}
+		return "", false, false
+	})
+	cos("parameter-help", func(rng *rand.Rand, q *gProg) (string, bool, bool) {
+		r := c15Reachable(q)
+		var ds []*gDecl
+		for i := range q.Decls {
+			if r[q.Decls[i].name()] {
+				ds = append(ds, &q.Decls[i])
+			}
+		}
+		d := ds[rng.Intn(len(ds))]
+		ps := d.ins()
+		if rng.Intn(2) == 0 || len(ps) == 0 {
+			ps = d.outs()
+		}
+		if len(ps) == 0 {
+			return "", false, false
+		}
+		k := rng.Intn(len(ps))
+		ps[k].Help += "what " + ps[k].Name + " is for"
+		return "help text of " + d.name() + "." + ps[k].Name, false, true
+	})
+	cos("stage-output-filename", func(rng *rand.Rand, q *gProg) (string, bool, bool) {
+		for _, st := range c15Stages(q, true) {
+			for k := range st.Outs {
+				if gIsFiletype(q, strings.TrimSuffix(st.Outs[k].Type, "[]")) {
+					st.Outs[k].OutName = "custom_" + st.Outs[k].Name + ".dat"
+					return "output file name of stage output " + st.Name + "." + st.Outs[k].Name, false, true
+				}
+			}
+		}
+		return "", false, false
+	})
+	cos("pipeline-retain", func(rng *rand.Rand, q *gProg) (string, bool, bool) {
+		for _, pp := range c15ReachablePipes(q) {
+			for _, src := range gSources(pp, q, len(pp.Calls)) {
+				if !strings.HasPrefix(src.Exp, "self.") && gIsFiletype(q, strings.TrimSuffix(src.Type, "[]")) {
+					if len(pp.Retain) == 0 {
+						pp.Retain = []string{src.Exp}
+					} else {
+						pp.Retain = nil
+					}
+					return "pipeline retain of " + pp.Name + ": " + src.Exp, false, true
 				}
 			}
 		}
@@ -877,6 +1035,34 @@ func c15Edits() []c15Edit {
 		return fmt.Sprintf("call %s of %s (position %d): callee %s -> %s (already called elsewhere in the pipeline: %v)",
 			id, st.pp.Name, st.j, old, c.Callee, st.dup), false, true
 	})
+	sem("struct-definition", func(rng *rand.Rand, q *gProg) (string, bool, bool) {
+		// a field is added to a struct type that a reachable parameter uses: the declared types change
+		r := c15Reachable(q)
+		used := false
+		for _, d := range q.Decls {
+			if !r[d.name()] {
+				continue
+			}
+			for _, pr := range append(append([]gParam{}, d.ins()...), d.outs()...) {
+				if strings.TrimSuffix(pr.Type, "[]") == "Pt" {
+					used = true
+				}
+			}
+		}
+		if !used || len(q.Structs) == 0 {
+			return "", false, false
+		}
+		q.Structs[0].Fields = append(q.Structs[0].Fields, gParam{Type: "float", Name: "weight"})
+		return "field `float weight` added to struct Pt (used by a reachable parameter)", false, true
+	})
+	expect := map[string]string{"identity": "-", "whitespace": "-", "comments": "-", "include-structure": "-",
+		"reorder-declarations": "-", "reorder-parameters": "-", "reorder-bindings": "-", "unused-callable": "-", "number-spelling": "-",
+		"filetype-rename": "fileTypeName", "volatile-flag": "volatile", "stage-renamed-call-aliased": "calleeName",
+		"stage-src": "stageSrc", "stage-resources": "resources", "stage-retain": "retain", "chunk-params": "chunkParams",
+		"parameter-help": "help", "stage-output-filename": "outName", "pipeline-retain": "retain", "struct-definition": "structDef"}
+	for i := range E {
+		E[i].kinds = expect[E[i].name]
+	}
 	return E
 }
 
@@ -927,6 +1113,7 @@ func c15UlpEdit(rng *rand.Rand, q *gProg) (string, bool, bool) {
 
 type c15Pair struct {
 	edit     string
+	kinds    string
 	semantic bool
 	desc     string
 	inTop    bool
@@ -1010,7 +1197,7 @@ func runC15(c *Ctx) {
 					r.hist("edited-program-rejected:" + e.name)
 					continue
 				}
-				pairs = append(pairs, &c15Pair{e.name, e.semantic, desc, inTop, ca, cb, p, q})
+				pairs = append(pairs, &c15Pair{e.name, e.kinds, e.semantic, desc, inTop, ca, cb, p, q})
 				break
 			}
 		}
@@ -1018,7 +1205,7 @@ func runC15(c *Ctx) {
 		q := p.clone()
 		if desc, inTop, ok := c15UlpEdit(c.Rng, q); ok {
 			if cb, err := c15Compile(newDir(), q); err == nil {
-				pairs = append(pairs, &c15Pair{"float-ulp", true, desc, inTop, ca, cb, p, q})
+				pairs = append(pairs, &c15Pair{"float-ulp", "", true, desc, inTop, ca, cb, p, q})
 			}
 		}
 	}
@@ -1049,7 +1236,7 @@ func runC15(c *Ctx) {
 			continue
 		}
 		f := strings.Fields(reps[i])
-		if len(f) != 4 {
+		if len(f) != 5 {
 			r.violate(Violation{Kind: "correspondence", Key: "C15:driver-parse", What: "driver could not parse the encoded AST: " + reps[i],
 				Input: input, Broken: "correspondence C15.equiv (encoding)"})
 			continue
@@ -1057,6 +1244,25 @@ func runC15(c *Ctx) {
 		if f[2] != "true" || f[3] != "true" {
 			r.violate(Violation{Kind: "correspondence", Key: "C15:wf", What: "a real compiled AST does not satisfy the model's well-formedness hypothesis",
 				Input: input, Model: reps[i], Broken: "hypothesis Prog.wf of Props.C15.equiv_iff_sem_eq"})
+		}
+		if pr.kinds != "" && f[4] != pr.kinds {
+			r.violate(Violation{Kind: "correspondence", Key: "C15:ignored-aspect-mismatch:" + pr.edit,
+				What:  fmt.Sprintf("the model's full meaning differs in the ignored aspects {%s}, the edit class changes {%s}: %s", f[4], pr.kinds, pr.desc),
+				Input: input, Model: f[4], Expect: pr.kinds, Broken: "Martian.Equiv.meaning (ignored component) vs edit catalogue"})
+		}
+		if pr.edit == "struct-definition" {
+			// only the struct's NAME is compared: a changed definition is accepted
+			if fmt.Sprint(gab) != f[0] {
+				r.violate(Violation{Kind: "correspondence", Key: "C15:equiv-model-mismatch:" + pr.edit,
+					What: "Ast.EquivalentCall differs from the Lean model: " + pr.desc, Input: input, Impl: gab, Model: f[0],
+					Broken: "correspondence C15.equiv"})
+			}
+			if gab || gba {
+				r.violate(Violation{Kind: "property", Key: "C15:struct-definition-ignored",
+					What:  "a changed struct definition (a parameter's type changed under an unchanged type name) is accepted as equivalent: " + pr.desc,
+					Input: input, Impl: []bool{gab, gba}, Expect: false})
+			}
+			continue
 		}
 		if pr.edit == "float-ulp" {
 			// documented deviation: the model compares bits, Go allows 1e-15 relative
@@ -1110,7 +1316,7 @@ func runC15(c *Ctx) {
 			break
 		}
 		pr := pairs[i]
-		if pr.inTop || pr.edit == "float-ulp" || pr.pa == nil {
+		if pr.inTop || pr.edit == "float-ulp" || pr.edit == "struct-definition" || pr.pa == nil {
 			continue // the top-level invocation text itself must be byte-identical (see below)
 		}
 		done++
